@@ -142,8 +142,10 @@ def run_config(config, out_dir, target, repo=None, log=None):
     return found
 
 
-def facts_for(config='full', fresh=False, log=None, repo=None):
-    """returns (facts_dir, info) for the current working tree"""
+def facts_for(config='full', fresh=False, log=None, repo=None, loader=None):
+    """returns (facts_dir, info) for the current working tree; with `loader`, (facts_dir, info, loader(facts_dir)) - the facts
+    are then read while the cache lock is still held, so that a concurrent fresh extraction (another thorough run) cannot
+    rewrite the directory under the reader"""
     repo = repo or REPO
     os.makedirs(CACHE, exist_ok=True)
     lock_path = os.path.join(CACHE, 'lock')
@@ -157,7 +159,7 @@ def facts_for(config='full', fresh=False, log=None, repo=None):
             with open(marker) as fh:
                 info.update(json.load(fh))
             info['fresh_extraction'] = False
-            return d, info
+            return (d, info, loader(d)) if loader else (d, info)
         # prune old fact dirs (keep disk small)
         fdir = os.path.join(CACHE, 'facts')
         if os.path.isdir(fdir):
@@ -170,7 +172,7 @@ def facts_for(config='full', fresh=False, log=None, repo=None):
         with open(marker) as fh:
             info.update(json.load(fh))
         info['fresh_extraction'] = True
-        return d, info
+        return (d, info, loader(d)) if loader else (d, info)
 
 
 if __name__ == '__main__':
